@@ -194,6 +194,40 @@ func returnLeaf(v ssa.Value, seen map[ssa.Value]bool, f func(ssa.Value)) {
 	f(v)
 }
 
+// RetResult resolves the i-th result of a return instruction. In functions
+// with a defer go/ssa spills results into allocs (`*r = v; ...; return *r`);
+// the value last stored into the alloc on the way to the return is found by
+// walking back through the block and its chain of single predecessors.
+func RetResult(r *ssa.Return, i int) ssa.Value {
+	if i >= len(r.Results) {
+		return nil
+	}
+	v := r.Results[i]
+	u, ok := v.(*ssa.UnOp)
+	if !ok || u.Op != token.MUL {
+		return v
+	}
+	al, ok := u.X.(*ssa.Alloc)
+	if !ok {
+		return v
+	}
+	b := r.Block()
+	idx := len(b.Instrs)
+	for hops := 0; hops < 16 && b != nil; hops++ {
+		for k := idx - 1; k >= 0; k-- {
+			if st, ok := b.Instrs[k].(*ssa.Store); ok && st.Addr == al {
+				return st.Val
+			}
+		}
+		if len(b.Preds) != 1 {
+			break
+		}
+		b = b.Preds[0]
+		idx = len(b.Instrs)
+	}
+	return v
+}
+
 // RetOK selects return instructions whose error result is the constant nil
 // (for functions without an error result: every return).
 func RetOK() Sel {
@@ -215,7 +249,7 @@ func RetOK() Sel {
 				out = append(out, in)
 				return
 			}
-			if c, ok := r.Results[ei].(*ssa.Const); ok && c.Value == nil {
+			if c, ok := RetResult(r, ei).(*ssa.Const); ok && c.Value == nil {
 				out = append(out, in)
 			}
 		})
@@ -233,7 +267,7 @@ func RetConst(i int, val string) Sel {
 			if !ok || i >= len(r.Results) {
 				return
 			}
-			if c, ok := r.Results[i].(*ssa.Const); ok && constString(c) == val {
+			if c, ok := RetResult(r, i).(*ssa.Const); ok && constString(c) == val {
 				out = append(out, in)
 			}
 		})
@@ -263,7 +297,7 @@ func RetTerm(i int, term string) Sel {
 			if !ok || i >= len(r.Results) {
 				return
 			}
-			if Term(r.Results[i]) == term {
+			if Term(RetResult(r, i)) == term {
 				out = append(out, in)
 			}
 		})
@@ -363,7 +397,15 @@ func Union(sels ...Sel) Sel {
 func DescribeInstr(in ssa.Instruction) string {
 	switch x := in.(type) {
 	case *ssa.Store:
-		return Term(x.Addr)[1:] + " = " + Term(x.Val)
+		a := Term(x.Addr)
+		if strings.HasPrefix(a, "&") {
+			a = a[1:]
+		} else {
+			a = "*" + a
+		}
+		return a + " = " + Term(x.Val)
+	case *ssa.MapUpdate:
+		return Term(x.Map) + "[" + Term(x.Key) + "] = " + Term(x.Value)
 	case *ssa.Return:
 		var parts []string
 		for _, r := range x.Results {
